@@ -43,9 +43,12 @@ var _ state.State = (*memState)(nil)
 
 // twin is one of the two executions of C19.
 type twin struct {
-	restoreAlways bool
-	inst          *state_machines.FSMInstance // kept across events when !restoreAlways
-	dump          []byte
+	// keepAfterError: the instance stays in memory even across a refused event
+	// (a caller of the FSM package that does not reload after an error)
+	keepAfterError bool
+	restoreAlways  bool
+	inst           *state_machines.FSMInstance // kept across events when !restoreAlways
+	dump           []byte
 }
 
 type stepOut struct {
@@ -103,6 +106,10 @@ func (tw *twin) apply(round string, event string, req interface{}, now time.Time
 	}
 	resp, d, e := inst.Do(fsm.Event(event), req)
 	if e != nil {
+		if tw.keepAfterError {
+			tw.inst = inst
+			return stepOut{err: "rejected", dump: canon(inst.FSMDump())}, nil
+		}
 		tw.inst = nil // the product discards the instance after an error
 		return stepOut{err: "rejected", dump: string(tw.dump)}, nil
 	}
